@@ -41,6 +41,7 @@ package contractcourt
 
 import (
 	"context"
+	"io"
 	"crypto/sha256"
 	"encoding/binary"
 	"encoding/hex"
@@ -1094,7 +1095,8 @@ type c13SweepReq struct {
 }
 
 type c13EpochReg struct {
-	ch chan *chainntnfs.BlockEpoch
+	ch    chan *chainntnfs.BlockEpoch
+	ident string
 }
 
 type c13Node struct {
@@ -1115,6 +1117,56 @@ type c13Node struct {
 	resolved   chan struct{}
 	idle       bool // nothing left to run for this channel
 	closedMem  bool
+
+	// queue holds answers the chain backend owes the node for things that are
+	// already on chain when asked (historical spend dispatch, results for inputs
+	// that are already spent, the current block on an epoch registration). They
+	// are delivered one at a time in a canonical order, each followed by
+	// quiescence, so that the order in which resolvers make progress - and hence
+	// which write is the k-th - does not depend on Go map iteration order inside
+	// lnd or on the scheduler.
+	queue []*c13Delivery
+	ident map[uint64]string // goroutine id -> the contract that goroutine works on
+	seq   int
+}
+
+type c13Delivery struct {
+	key  string
+	what string
+	fn   func()
+}
+
+// c13Goid returns the id of the calling goroutine (used only to give epoch
+// registrations, which carry no argument, a stable identity).
+func c13Goid() uint64 {
+	var buf [64]byte
+	s := string(buf[:runtime.Stack(buf[:], false)])
+	s = strings.TrimPrefix(s, "goroutine ")
+	if i := strings.IndexByte(s, ' '); i > 0 {
+		s = s[:i]
+	}
+	var id uint64
+	fmt.Sscan(s, &id)
+	return id
+}
+
+func (n *c13Node) enqueue(key, what string, fn func()) {
+	n.seq++
+	n.queue = append(n.queue, &c13Delivery{key: fmt.Sprintf("%s#%06d", key, n.seq), what: what, fn: fn})
+}
+
+// next pops the canonical-first queued delivery.
+func (w *c13World) next() *c13Delivery {
+	w.mu.Lock()
+	defer w.mu.Unlock()
+	n := w.node
+	if n == nil || len(n.queue) == 0 {
+		return nil
+	}
+	sort.SliceStable(n.queue, func(i, j int) bool { return n.queue[i].key < n.queue[j].key })
+	d := n.queue[0]
+	n.queue = n.queue[1:]
+	return d
 }
 
 // enter is the first statement of every harness-owned dependency: it takes the
@@ -1155,13 +1207,17 @@ func (x *c13Notifier) RegisterSpendNtfn(op *wire.OutPoint, _ []byte, _ uint32) (
 	n := x.n
 	n.enter()
 	defer n.leave()
+	w := n.w
 	ev := chainntnfs.NewSpendEvent(func() {})
-	if sp, ok := n.w.spent[*op]; ok {
-		n.w.logf("    notifier: spend of %s already on chain (%s) -> historical dispatch", n.w.opName(*op), n.w.tagOf(sp.tx.TxHash()))
-		ev.Spend <- n.w.spendDetail(*op, sp)
+	name := w.opName(*op)
+	n.ident[c13Goid()] = name
+	if sp, ok := w.spent[*op]; ok {
+		w.logf("    notifier: %s is already spent on chain (%s): historical dispatch queued", name, w.tagOf(sp.tx.TxHash()))
+		det := w.spendDetail(*op, sp)
+		n.enqueue("1-spend:"+name, "historical spend of "+name, func() { ev.Spend <- det })
 		return ev, nil
 	}
-	n.w.logf("    notifier: watching %s", n.w.opName(*op))
+	w.logf("    notifier: watching %s", name)
 	n.spendRegs[*op] = append(n.spendRegs[*op], ev)
 	return ev, nil
 }
@@ -1170,8 +1226,17 @@ func (x *c13Notifier) RegisterBlockEpochNtfn(*chainntnfs.BlockEpoch) (*chainntnf
 	n := x.n
 	n.enter()
 	defer n.leave()
-	reg := &c13EpochReg{ch: make(chan *chainntnfs.BlockEpoch, 1024)}
-	reg.ch <- &chainntnfs.BlockEpoch{Height: n.w.height.Load(), Hash: &chainhash.Hash{}}
+	id, ok := n.ident[c13Goid()]
+	if !ok {
+		n.seq++
+		id = fmt.Sprintf("~anonymous-%06d", n.seq)
+	}
+	reg := &c13EpochReg{ch: make(chan *chainntnfs.BlockEpoch, 1024), ident: id}
+	h := n.w.height.Load()
+	// The notifier sends the current block right after the registration.
+	n.enqueue("3-epoch:"+id, fmt.Sprintf("current block %d to the new epoch subscription of %s", h, id), func() {
+		reg.ch <- &chainntnfs.BlockEpoch{Height: h, Hash: &chainhash.Hash{}}
+	})
 	n.epochRegs = append(n.epochRegs, reg)
 	return &chainntnfs.BlockEpochEvent{
 		Epochs: reg.ch,
@@ -1214,9 +1279,11 @@ func (s *c13Sweeper) SweepInput(inp input.Input, _ sweep.Params) (chan sweep.Res
 	w := n.w
 	w.obs.Offered = c13ListAdd(w.obs.Offered, fmt.Sprintf("%s/%v", w.opName(op), inp.WitnessType()))
 	rc := make(chan sweep.Result, 1)
+	n.ident[c13Goid()] = w.opName(op)
 	if sp, ok := w.spent[op]; ok {
-		w.logf("    sweeper: %s offered, already spent by %s", w.opName(op), w.tagOf(sp.tx.TxHash()))
-		rc <- s.result(sp)
+		w.logf("    sweeper: %s offered, already spent by %s: result queued", w.opName(op), w.tagOf(sp.tx.TxHash()))
+		res := s.result(sp)
+		n.enqueue("2-sweep:"+w.opName(op), "sweep result for the already spent "+w.opName(op), func() { rc <- res })
 		return rc, nil
 	}
 	w.logf("    sweeper: %s offered (%v)", w.opName(op), inp.WitnessType())
@@ -1328,6 +1395,23 @@ func (c *c13Channel) NewAnchorResolutions() (*lnwallet.AnchorResolutions, error)
 	return res, nil
 }
 
+// c13Onion is the package's mockOnionProcessor (every received HTLC is a forward)
+// plus a note of which HTLC the calling goroutine works on.
+type c13Onion struct {
+	n     *c13Node
+	inner *mockOnionProcessor
+}
+
+func (o *c13Onion) ReconstructHopIterator(r io.Reader, rHash []byte,
+	bi hop.ReconstructBlindingInfo) (hop.Iterator, error) {
+
+	o.n.enter()
+	o.n.ident[c13Goid()] = "htlc-" + hex.EncodeToString(rHash[:6])
+	it, err := o.inner.ReconstructHopIterator(r, rHash, bi)
+	o.n.leave()
+	return it, err
+}
+
 type c13HtlcNotifier struct{ n *c13Node }
 
 func (h *c13HtlcNotifier) NotifyFinalHtlcEvent(models.CircuitKey, channeldb.FinalHtlcInfo) {
@@ -1384,7 +1468,7 @@ func (w *c13World) config(n *c13Node) ChannelArbitratorConfig {
 		PreimageDB:     &c13Beacon{n: n},
 		Sweeper:        &c13Sweeper{n: n},
 		Registry:       &c13RegistryImpl{n: n},
-		OnionProcessor: &mockOnionProcessor{},
+		OnionProcessor: &c13Onion{n: n, inner: &mockOnionProcessor{}},
 		IsForwardedHTLC: func(lnwire.ShortChannelID, uint64) bool {
 			return true
 		},
@@ -1561,6 +1645,7 @@ func (w *c13World) startNode() {
 		sweeps:    map[wire.OutPoint]*c13SweepReq{},
 		resolved:  make(chan struct{}),
 		closedMem: d.closed,
+		ident:     map[uint64]string{},
 	}
 	n.db = &c13DB{DB: w.cdb, w: w, n: n}
 	w.node = n
@@ -1661,18 +1746,13 @@ func (w *c13World) startNode() {
 		w.anomaly("arbitrator-start-failed:" + err.Error())
 		return
 	}
-	synctest.Wait()
-	if w.crashed.Load() {
+	if !w.settle() {
 		return
 	}
-	w.snapshot()
 	if n.mode == "open" {
 		if _, sp := w.spent[w.funding]; sp {
 			w.deliverCloseEvent()
-			synctest.Wait()
-			if !w.crashed.Load() {
-				w.snapshot()
-			}
+			w.settle()
 		}
 	}
 }
@@ -1722,12 +1802,19 @@ func (w *c13World) kill() {
 // ---------------------------------------------------------------------------
 
 func (w *c13World) settle() bool {
-	synctest.Wait()
-	if w.crashed.Load() {
-		return false
+	for {
+		synctest.Wait()
+		if w.crashed.Load() {
+			return false
+		}
+		w.snapshot()
+		d := w.next()
+		if d == nil {
+			return true
+		}
+		w.logf("  deliver: %s", d.what)
+		d.fn()
 	}
-	w.snapshot()
-	return true
 }
 
 // blockStep connects one block and delivers, one at a time and each followed by
@@ -1838,13 +1925,14 @@ func (w *c13World) blockStep() bool {
 	// 5. Block epochs to the resolvers that asked for them.
 	w.mu.Lock()
 	regs := append([]*c13EpochReg{}, n.epochRegs...)
+	sort.SliceStable(regs, func(i, j int) bool { return regs[i].ident < regs[j].ident })
 	w.mu.Unlock()
 	for i, r := range regs {
 		select {
 		case r.ch <- &chainntnfs.BlockEpoch{Height: h, Hash: &chainhash.Hash{}}:
 		default:
 		}
-		w.logf("  deliver: block epoch %d to resolver subscription %d/%d", h, i+1, len(regs))
+		w.logf("  deliver: block epoch %d to the subscription of %s (%d/%d)", h, r.ident, i+1, len(regs))
 		if !w.settle() {
 			return false
 		}
